@@ -34,6 +34,9 @@ OPNAME = {
     "t": "datachannel-timeout", "T": "datachannel-timeout-connected-client", "w": "poll-repeated-no-match", "o": "datachannel-open", "q": "relay-unreachable",
     "A": "answer-fail-after-datachannel-open", "+": "bare-get", "c": "client-close", "d": "relay-close",
     "-": "bare-ret", "B": "blocked-at-capacity", "E": "final-poll",
+    # S<n>x<rounds> (conc cases): n sessions end at the same moment while n others take a slot, <rounds> times over, then one
+    # session polls (harness/overlay/proxy/lib/zz_verif_c16conc_test.go)
+    "S": "concurrent-release",
 }
 
 
@@ -110,6 +113,12 @@ def walk(line, impl):
             if r != "-":
                 return (i, nm(), "format", "unexpected result " + r)
             continue
+        note = ""
+        if k == "S" and "~" in r:
+            # ~r<first round after which tokens.count() differed from the slots held>d<the difference> (r0d0: never)
+            r, diag = r.split("~", 1)
+            if diag != "r0d0":
+                note = "; overlapping get/ret: after round %s of the stress tokens.count() was off by %s from the slots held (update of the counter is not atomic)" % tuple(diag[1:].split("d", 1))
         pr = parse_res(r)
         if pr is None:
             return (i, nm(), "format", "unparsable result " + r)
@@ -139,11 +148,13 @@ def walk(line, impl):
             if p % 8 != 0:
                 return (i, nm(), "load-not-multiple-of-8", "poll %d of op %d (%s) reported Clients=%d, not a multiple of 8" % (j, i, op, p))
             if p < 0 or p > inuse or p > measured:
-                return (i, nm(), "load-exceeds-in-use", "poll %d of op %d (%s) reported Clients=%d with %d slots in use (tokens.count()=%d at that moment)" % (j, i, op, p, inuse, measured))
+                return (i, nm(), "load-exceeds-in-use", "poll %d of op %d (%s) reported Clients=%d with %d slots in use (tokens.count()=%d at that moment)" % (j, i, op, p, inuse, measured) + note)
+            if measured < inuse and k == "S":
+                return (i, nm(), "count-below-in-use", "at poll %d of op %d (%s) tokens.count()=%d but %d slots are held" % (j, i, op, measured, inuse) + note)
             if measured < inuse:
-                return (i, nm(), "released-twice", "at poll %d of op %d (%s) tokens.count()=%d but %d slots are held: a slot was released twice" % (j, i, op, measured, inuse))
+                return (i, nm(), "released-twice", "at poll %d of op %d (%s) tokens.count()=%d but %d slots are held: a slot was released twice" % (j, i, op, measured, inuse) + note)
             if measured > inuse:
-                return (i, nm(), "leaked", "at poll %d of op %d (%s) tokens.count()=%d but only %d slots are held: a slot leaked" % (j, i, op, measured, inuse))
+                return (i, nm(), "leaked", "at poll %d of op %d (%s) tokens.count()=%d but only %d slots are held: a slot leaked" % (j, i, op, measured, inuse) + note)
         if count < expect:
             return (i, nm(), "released-twice", "after op %d (%s) tokens.count()=%d but %d slots are held: a slot was released twice" % (i, op, count, expect))
         if count > expect:
@@ -358,6 +369,39 @@ def slow_cases(ctx):
     return [(AREA + " " + c, k) for c, k in cases]
 
 
+def conc_cases(ctx):
+    """overlapping token operations (op S<n>x<rounds>): n sessions end at the same moment (one barrier) while n others take a
+    slot, repeated; then quiescence and one poll. 6 bare gets first: with the polling session 7 slots are in use, so the
+    reported load must be 0 and a count that drifted up by one already shows as a load above the slots in use. The model has
+    get/ret as atomic steps (C16_slot_accounting assumes it); these cases observe that the counter update is atomic."""
+    rng = ctx.rng
+    thorough = ctx.tier == "thorough"
+    cases = []
+    for n, cap in [(8, 0), (16, 0), (64, 0), (16, 6 + 16 + 1), (32, 256)] + ([(rng.choice([2, 4, 8, 24, 48]), rng.choice([0, 0, 200])) for _ in range(6)] if thorough else []):
+        rounds = (300 if not thorough else 1500) * 16 // max(16, n)
+        base = 6
+        ops = ["+"] * base + ["S%dx%d" % (n, rounds)] + ["-%d" % i for i in range(base)] + ["e"]
+        cases.append(("%s conc %d %s" % (AREA, cap, ",".join(ops)), "concurrent-release"))
+    return cases
+
+
+def run_conc(ctx, exe):
+    """conc cases run on the implementation only (the sequential model has nothing to say about overlapping steps beyond
+    'each is atomic'): the predicate is walk() on the driver's answer"""
+    cases = conc_cases(ctx)
+    rc, impl, err = vlib.run_impl(exe, [l for l, _ in cases], args=DRIVER_ARGS)
+    if rc != 0 or len(impl) != len(cases):
+        ctx.violation("driver-crash", "implementation driver died (rc=%s) in the concurrent-release cases: %s" % (rc, err[-600:]),
+                      dict(label="proxy-session-concurrent", case=cases[min(len(impl), len(cases) - 1)][0], stderr=err[-2000:]))
+        impl = impl + ["!died"] * (len(cases) - len(impl))
+    for (l, k), r in zip(cases, impl):
+        ctx.count(l, kind=k)
+        bad = prop(l, r, None)
+        if bad:
+            ctx.violation(key_of(l, r, None), bad, dict(label="proxy-session-concurrent", case=l, impl=r[:4000]))
+    ctx.extra["concurrent_release_cases"] = len(cases)
+
+
 def start_slow(exe, cases):
     procs = []
     for line, _ in cases:
@@ -390,12 +434,14 @@ def run(ctx):
                     "relay kinds of the Y<x> ops are raw TCP listeners of the driver (reset / close without answer / HTTP 403 / never answer) and a stalling handler on the test relay; a hanging relay is given 45 s (HandshakeTimeout of websocket.DefaultDialer) + 15 s to release the slot"]
     ctx.assumptions += ["model = coq/Model/Tokens.v + coq/Model/ProxySession.v (hand written; V1 = code with proposed-fixes/C16-release-once.diff)",
                         "one data channel per peer connection; a handler can only start between handing the answer to the broker and pc.Close()",
-                        "seq cases call tokens.get(); runSession() as Start does; start cases run SnowflakeProxy.Start itself"]
+                        "seq cases call tokens.get(); runSession() as Start does; start cases run SnowflakeProxy.Start itself",
+                        "get/ret are atomic steps in the model (C16_slot_accounting); conc cases (op S: n goroutines ret() at one barrier while n others get(), a few hundred rounds, then quiescence and a real poll) observe on the real tokens_t that the counter update is atomic - a stress, not a proof"]
     slow = slow_cases(ctx)
     procs = start_slow(exe, slow)
     try:
         lines, kinds = gen(ctx)
         ctx.correspond(exe, lines, kinds, label="proxy-session", prop=guarded_prop(ctx), key_of=key_of, impl_args=DRIVER_ARGS)
+        run_conc(ctx, exe)
         outs = collect_slow(procs)
     finally:
         for p in procs:
@@ -417,6 +463,13 @@ def replay(ctx, doc):
     for v in doc.get("violations", []):
         case = v["replay"].get("case")
         if not case:
+            continue
+        if " conc " in case:
+            rc, r, err = vlib.run_impl(exe, [case], args=DRIVER_ARGS)
+            r = r[0] if r else "!died"
+            p = prop(case, r, None)
+            print("case: %s\n impl:  %s\n property: %s" % (case[:300], r[:300], p or "holds"))
+            bad += 1 if p else 0
             continue
         m = vlib.run_model([case])[0]
         m0 = vlib.run_model([case.replace(" seq ", " seq0 ", 1)])[0] if " seq " in case else "-"
